@@ -102,6 +102,22 @@ class SimEq(PDEBase):
         out.data = self.rate(state.data, t)
         return out
 
+    def make_post_step_hook(self, state, backend="numpy"):
+        """optional post-step hook with *scalar* hook data (the documented pattern
+        `return post_step_hook, 0.0`): counts the steps and feeds the count back into the
+        state, so that the final state depends on the hook data surviving every stepper
+        call.  Added after the independently seeded change C07-3 (compiled fixed stepper passes
+        the hook data captured at construction on every call) was missed."""
+        if not self.spec.get("hook"):
+            raise NotImplementedError
+
+        def post_step_hook(state_data, t, post_step_data):
+            post_step_data += 1.0
+            state_data *= 1.0 + 1e-3 / post_step_data
+            return state_data, post_step_data
+
+        return post_step_hook, 0.0
+
     def make_evolution_rate(self, state, backend):
         if self.kind == "lin":
             a = self.a
